@@ -11,9 +11,9 @@ import (
 	"github.com/cocosip/go-dicom-codecs/jpeg/lossless14sv1"
 	"github.com/cocosip/go-dicom-codecs/jpeg2000"
 	"github.com/cocosip/go-dicom-codecs/jpeg2000/htj2k"
-	"github.com/cocosip/go-dicom-codecs/jpeg2000/t2"
 	_ "github.com/cocosip/go-dicom-codecs/jpeg2000/lossless"
 	_ "github.com/cocosip/go-dicom-codecs/jpeg2000/lossy"
+	"github.com/cocosip/go-dicom-codecs/jpeg2000/t2"
 	lslossless "github.com/cocosip/go-dicom-codecs/jpegls/lossless"
 	"github.com/cocosip/go-dicom-codecs/jpegls/nearlossless"
 	_ "github.com/cocosip/go-dicom-codecs/rle"
@@ -169,14 +169,19 @@ func materializeAll(in spec.Info, fs []spec.Frame) [][]byte {
 // sourceFrames resolves the input frames of an operation.
 func (e *Env) sourceFrames(op *spec.Op, tc *taskCtx, pre [][]byte) [][]byte {
 	if op.From >= 0 && tc != nil && op.From < len(tc.sinks) {
+		// the consumer gets private copies: what one call does to its input must
+		// not be mistaken for a write into a frame an earlier call delivered
 		src := tc.sinks[op.From]
-		if len(op.FromSel) == 0 {
-			return src
+		sel := op.FromSel
+		if len(sel) == 0 {
+			for i := range src {
+				sel = append(sel, i)
+			}
 		}
-		out := make([][]byte, 0, len(op.FromSel))
-		for _, i := range op.FromSel {
+		out := make([][]byte, 0, len(sel))
+		for _, i := range sel {
 			if i >= 0 && i < len(src) {
-				out = append(out, src[i])
+				out = append(out, append([]byte(nil), src[i]...))
 			}
 		}
 		return out
@@ -185,6 +190,30 @@ func (e *Env) sourceFrames(op *spec.Op, tc *taskCtx, pre [][]byte) [][]byte {
 		return pre
 	}
 	return materializeAll(op.Info, op.Frames)
+}
+
+func snapshot(fs [][]byte) [][]byte {
+	out := make([][]byte, len(fs))
+	for i, f := range fs {
+		out[i] = append([]byte{}, f...)
+	}
+	return out
+}
+
+// cutFrames applies a torn read to every frame (low-level decode ops).
+func cutFrames(fs [][]byte, cut int) [][]byte {
+	if cut <= 0 {
+		return fs
+	}
+	out := make([][]byte, len(fs))
+	for i, f := range fs {
+		n := len(f) - cut
+		if n < 0 {
+			n = 0
+		}
+		out[i] = append([]byte(nil), f[:n]...)
+	}
+	return out
 }
 
 // preEncode produces the encoded input of a Pre operation (set-up time).
@@ -229,6 +258,9 @@ func (e *Env) execOp(op *spec.Op, tc *taskCtx, pre [][]byte, keepIn bool) (res s
 		i0 := *src.info
 		if !shared {
 			res.ParamsBefore = paramsDigest(params)
+			if keepIn {
+				res.ParamsIn = paramsKV(params)
+			}
 		}
 		guard(&res, func() error {
 			if op.Kind == "enc" {
@@ -241,6 +273,15 @@ func (e *Env) execOp(op *spec.Op, tc *taskCtx, pre [][]byte, keepIn bool) (res s
 		}
 		res.SrcIntact = hashFrames(frames) == h0
 		res.InfoIntact = *src.info == i0
+		if keepIn {
+			res.In = src.servedFrames()
+			res.Count = src.FrameCount()
+			if src.infoSeen != nil {
+				c := src.infoSeen
+				res.InfoSeen = &spec.Info{W: int(c.Width), H: int(c.Height), BA: int(c.BitsAllocated), BS: int(c.BitsStored), HB: int(c.HighBit),
+					SPP: int(c.SamplesPerPixel), PR: int(c.PixelRepresentation), Planar: int(c.PlanarConfiguration), PI: c.PhotometricInterpretation}
+			}
+		}
 		res.Out = dst.got
 		res.AddCalls, res.GetCalls, res.AddAfterErr = dst.addCalls, src.getCalls, dst.addAfter
 		res.Fired = map[string]int{}
@@ -254,7 +295,7 @@ func (e *Env) execOp(op *spec.Op, tc *taskCtx, pre [][]byte, keepIn bool) (res s
 	case "j2kenc":
 		frames := e.sourceFrames(op, tc, pre)
 		if keepIn {
-			res.In = frames
+			res.In = snapshot(frames)
 		}
 		enc := e.encoders[op.Obj]
 		if enc == nil {
@@ -282,9 +323,9 @@ func (e *Env) execOp(op *spec.Op, tc *taskCtx, pre [][]byte, keepIn bool) (res s
 		})
 		res.SrcIntact, res.InfoIntact = hashFrames(frames) == h0, true
 	case "j2kdec":
-		frames := e.sourceFrames(op, tc, pre)
+		frames := cutFrames(e.sourceFrames(op, tc, pre), op.Cut)
 		if keepIn {
-			res.In = frames
+			res.In = snapshot(frames)
 		}
 		dec := e.decoders[op.Obj]
 		if dec == nil {
@@ -297,16 +338,16 @@ func (e *Env) execOp(op *spec.Op, tc *taskCtx, pre [][]byte, keepIn bool) (res s
 				if err := dec.Decode(f); err != nil {
 					return err
 				}
-				res.Out = append(res.Out, dec.GetPixelData())
+				res.Out = append(res.Out, append([]byte{}, dec.GetPixelData()...))
 				res.OutMeta = append(res.OutMeta, dec.Width(), dec.Height(), dec.Components(), dec.BitDepth())
 			}
 			return nil
 		})
 		res.SrcIntact, res.InfoIntact = hashFrames(frames) == h0, true
 	case "pkgenc", "pkgdec":
-		frames := e.sourceFrames(op, tc, pre)
+		frames := cutFrames(e.sourceFrames(op, tc, pre), op.Cut)
 		if keepIn {
-			res.In = frames
+			res.In = snapshot(frames)
 		}
 		h0 := hashFrames(frames)
 		guard(&res, func() error {
